@@ -96,7 +96,10 @@ def networks(ctx, gen):
     out = []
 
     def add(name, sched, T, role="single", ping=False, frm="A", perturb=0):
-        n = {"name": name, "seed": rnd.randrange(1 << 30), "T": T, "role": role, "from": frm, "perturb": perturb, "sched": sched, "tick_ms": T / 2.0}
+        n = {"name": name, "seed": rnd.randrange(1 << 30), "T": T, "role": role, "from": frm, "perturb": perturb, "sched": sched, "tick_ms": T / 2.0,
+             # every fourth network runs over WebSocket (same byte proxy); QUIC has no proxy to observe the close and is
+             # covered for connection termination by C07 only
+             "transport": "ws" if len(out) % 4 == 3 else "tcp"}
         if ping:
             n["ping_ms"] = max(20, T // 6)
             n["identify"] = True
@@ -215,9 +218,10 @@ def check(ctx):
 def evidence(mc, gstats, summ, nets, lines, nseg, nev):
     segs = split_segments(lines, lambda ln: '"e":"reset"' in ln)
     fam, shapes, margins = {}, set(), {"notbefore_min_ms": None, "eventually_max_ms": None}
-    kinds = {}
+    kinds, bytr = {}, {}
     for s in segs:
         head = json.loads(s[0])
+        bytr[head.get("transport", "tcp")] = bytr.get(head.get("transport", "tcp"), 0) + 1
         name = head["sc"]
         f = "tlc" if name.startswith("tlc-") else name
         fam[f] = fam.get(f, 0) + 1
@@ -261,7 +265,7 @@ def evidence(mc, gstats, summ, nets, lines, nseg, nev):
                 "double connection; with/without ping+identify); distinct = distinct (T, order of observed activity/close events with "
                 "times bucketed in quarters of T); every case ends in an observed close or a watched hold",
         "model_runs": mc, "generation": {k: gstats[k] for k in gstats if k != "out"}, "harness": summ,
-        "network_families": fam, "event_kinds": kinds, "networks_submitted": len(nets),
+        "network_families": fam, "networks_by_transport": bytr, "event_kinds": kinds, "networks_submitted": len(nets),
         "observed_margins": dict(margins, note="close - lastActivity - T (must be >= 0) / close - idleStart - T (must be <= slack)"),
         "impl_divergences": 0, "exhaustive": False,
     }
